@@ -199,6 +199,13 @@ class Evaluator:
         self.funcs = dict(funcs or {})  # dotted callee text -> python callable over domain values
         self.consts = dict(consts or {})  # module-level numeric constants by name
 
+    def _emit(self, value):
+        """A `yield` of the fragment: collected, or handed to the consumer at once when the fragment runs as a lazy generator."""
+        if getattr(self, "on_yield", None) is not None:
+            self.on_yield(value)
+        else:
+            self.yields.append(value)
+
     # -- expressions ----------------------------------------------------------------------
     def ev(self, node):
         key = None
@@ -669,9 +676,10 @@ class Evaluator:
         elif isinstance(st, (ast.Pass, ast.Import, ast.ImportFrom)):
             pass  # imported names are resolved through the table of supplied callables when they are used
         elif isinstance(st, ast.Expr) and isinstance(st.value, ast.Yield):
-            self.yields.append(self.ev(st.value.value) if st.value.value is not None else None)
+            self._emit(self.ev(st.value.value) if st.value.value is not None else None)
         elif isinstance(st, ast.Expr) and isinstance(st.value, ast.YieldFrom):
-            self.yields.extend(list(self.ev(st.value.value)))
+            for item_ in self.ev(st.value.value):
+                self._emit(item_)
         elif isinstance(st, ast.Expr):
             if isinstance(st.value, ast.Constant):
                 return
@@ -854,6 +862,8 @@ class Lifted:
     def __call__(self, *args, **kw):
         ev = Evaluator(dict(self.env), self.funcs, self.consts, hook=self.hook)
         ev.locals.update(self.bind(args, kw))
+        if self.is_gen:
+            return _LazyGen(ev, self.body)
         kind, val = ev.run(self.body)
         if kind == "raise":
             raise getattr(ev, "last_raised", None) or Raised(val)
@@ -950,3 +960,56 @@ class ClassModel:
 
     def instance(self, **attrs):
         return self.cls(**attrs)
+
+
+class _LazyGen:
+    """A generator function of /repo run lazily, as Python would: the body executes in a helper thread that is parked at every
+    `yield` until the consumer asks for the next item, so that what the consumer does between two items (reading solver
+    values, breaking out of the loop) happens at the right moment. Errors of the body surface at the consumer's next()."""
+
+    def __init__(self, ev, body):
+        import threading
+
+        self._want = threading.Semaphore(0)
+        self._have = threading.Semaphore(0)
+        self._item = None
+        self._done = False
+        self._error = None
+        self._started = False
+
+        def emit(value):
+            self._item = value
+            self._have.release()
+            self._want.acquire()
+
+        def run():
+            self._want.acquire()
+            try:
+                ev.on_yield = emit
+                kind, val = ev.run(body)
+                if kind == "raise":
+                    self._error = getattr(ev, "last_raised", None) or Raised(val)
+            except BaseException as e:  # Unfoldable and internal errors travel to the consumer too
+                self._error = e
+            self._done = True
+            self._have.release()
+
+        self._thread = threading.Thread(target=run, daemon=True)
+
+    def __iter__(self):
+        return self
+
+    def __next__(self):
+        if self._done:
+            raise StopIteration
+        if not self._started:
+            self._started = True
+            self._thread.start()
+        self._want.release()
+        self._have.acquire()
+        if self._done:
+            if self._error is not None:
+                err, self._error = self._error, None
+                raise err
+            raise StopIteration
+        return self._item
